@@ -37,9 +37,16 @@ pub struct FileStorage {
 impl FileStorage {
     fn apply_wal_record(file: &mut File, record: WriteAheadLogRecord) -> Result<(), DbError> {
         if record.value.is_empty() {
+            #[cfg(agdb_verif)]
+            crate::verif::fs_event(crate::verif::FsEvent::DataSetLen { len: record.pos });
             file.set_len(record.pos)?;
         } else {
             file.seek(SeekFrom::Start(record.pos))?;
+            #[cfg(agdb_verif)]
+            crate::verif::fs_event(crate::verif::FsEvent::DataWrite {
+                pos: record.pos,
+                bytes: &record.value,
+            });
             file.write_all(&record.value)?;
         }
 
@@ -60,7 +67,14 @@ impl FileStorage {
 
     fn read_impl(mut file: &File, pos: u64, buffer: &mut [u8]) -> Result<(), DbError> {
         file.seek(SeekFrom::Start(pos))?;
+        #[cfg(agdb_verif)]
+        crate::verif::fs_event(crate::verif::FsEvent::ReadSeek {
+            pos,
+            len: buffer.len() as u64,
+        });
         file.read_exact(buffer)?;
+        #[cfg(agdb_verif)]
+        crate::verif::fs_event(crate::verif::FsEvent::ReadDone { pos, bytes: buffer });
         Ok(())
     }
 }
@@ -114,8 +128,12 @@ impl StorageData for FileStorage {
         let mut buffer = vec![0_u8; value_len as usize];
 
         if let Ok(_guard) = self.lock.try_lock() {
+            #[cfg(agdb_verif)]
+            crate::verif::fs_event(crate::verif::FsEvent::ReadHandle { shared: true });
             Self::read_impl(&self.file, pos, &mut buffer)?;
         } else {
+            #[cfg(agdb_verif)]
+            crate::verif::fs_event(crate::verif::FsEvent::ReadHandle { shared: false });
             Self::read_impl(&self.open_file()?, pos, &mut buffer)?;
         }
 
@@ -142,6 +160,8 @@ impl StorageData for FileStorage {
             self.wal.insert(new_len, &[])?;
         }
 
+        #[cfg(agdb_verif)]
+        crate::verif::fs_event(crate::verif::FsEvent::DataSetLen { len: new_len });
         self.file.set_len(new_len)?;
         self.len = new_len;
         Ok(())
@@ -154,6 +174,8 @@ impl StorageData for FileStorage {
         Self::read_impl(&self.file, pos, &mut buffer)?;
         self.wal.insert(pos, &buffer)?;
         self.file.seek(SeekFrom::Start(pos))?;
+        #[cfg(agdb_verif)]
+        crate::verif::fs_event(crate::verif::FsEvent::DataWrite { pos, bytes });
         self.file.write_all(bytes)?;
         self.len = std::cmp::max(current_len, end);
         Ok(())
